@@ -441,8 +441,8 @@ class ExcelModel:
             if isinstance(c, Ref) and c.inputs:
                 if c.func.dsp.function_nodes:
                     continue
-                inp = c.output
-                if set(pred[inp]) == {c.func.function_id}:
+                inp, p = c.output, tuple(pred[c.output])
+                if len(p) == 1 and nodes[p[0]]['function'] is c.func:
                     out = list(c.inputs)[0]
                     if not any(out in succ[k] for k in succ[inp]):
                         dsp.add_function(
